@@ -88,6 +88,21 @@ func (w *World) verifyFunc(key string) (g *Gen) {
 	for i, p := range fn.Params {
 		a.params[p.Name()] = args[i]
 	}
+	// captured variables of a closure are visible to its contract (also in requires / ensures)
+	// under their source name, read through the cell they live in
+	for _, fv := range fn.FreeVars {
+		s := g.w.sortOf(fv.Type())
+		v := Val{T: g.fresh("fv_"+fv.Name(), s), S: s, G: fv.Type()}
+		if s == "Ref" {
+			g.fact("(> " + v.T + " 0)")
+			g.fact("(<= " + v.T + " " + g.stateGet(st, "$wm") + ")")
+			g.refs = append(g.refs, v.T)
+		}
+		a.vals[fv] = v
+		pv := v
+		pv.S = "$addr"
+		a.params[fv.Name()] = pv
+	}
 	a.entrySt = st.clone()
 	env := a.env(st, nil, nil)
 	env.old = st
